@@ -318,7 +318,13 @@ def hardened_flow(ctx):
         passed = kwargs.get('hardened', args[1] if len(args) > 1 else None)
         ctx.saw('%s derivation at line %d: hardened passed=%s, path condition on marker=%s' % (kind, node.lineno, show(term(passed)) if passed is not None else None, [(show(t)[-40:], p) for t, p in hard_tests]))
         passed_ok = passed is not None and any(isinstance(s, tuple) and s[0] == 'cmp' and s[1] == 'in' and isinstance(s[3], str) and "'" in s[3] for s in subterms(('w', term(passed))))
-        refused = any(pol is False for (t, pol) in hard_tests)
+        marker_atoms = []
+        for (t, pol) in pc:
+            for s_ in subterms(('w', t)):
+                if isinstance(s_, tuple) and s_[0] == 'cmp' and s_[1] == 'in' and isinstance(s_[3], str) and "'" in s_[3] and s_ not in marker_atoms:
+                    marker_atoms.append(s_)
+        # refused = the path condition of the call is unsatisfiable together with "this level carries a hardened marker"
+        refused = bool(marker_atoms) and all(not intv.satisfiable(pc, [(a, True)]) for a in marker_atoms)
         if not passed_ok and not refused:
             ctx.violate(q, '%s derivation call `%s` neither receives the hardened flag nor is restricted to non-hardened levels' % (kind, norm(node)), node,
                         "a level spelled hardened (0') silently yields the non-hardened child")
